@@ -299,7 +299,12 @@ fn enter(rep: &mut Report, r: &mut Rng, stubs: &[u64; 256], v: usize, scratch: &
     let mut p = Params { handler: stubs[v], has_err: has_error_code(v) as u64, err, flags, frame_rsp, scratch_top: scratch.top(), cs: cs as u64, ss: ss as u64, mode: 0, ..Default::default() };
     unsafe {
         *core::ptr::addr_of_mut!(OBS) = Obs::default();
+        // entering the installed gate must end in the general handler and come back: a fault or an abort on the way (a
+        // stub that panics, a frame mangled before the handler sees it) is the stub's doing - the trampoline and the
+        // observer are the same code for all 250 vectors and return on the unchanged tree
+        crate::util::fault_means_if("C13", format!("stub|{}|fault-or-abort-instead-of-calling-the-general-handler-and-resuming", if has_error_code(v) { "error-code" } else { "no-error-code" }), J::obj(vec![("vector", J::U(v as u64)), ("profile", J::s(profile_name()))]), |_| true);
         irqsim::deliver(&mut p as *mut Params);
+        crate::util::fault_means_nothing();
     }
     let o = unsafe { *core::ptr::addr_of!(OBS) };
     let ctx = || J::obj(vec![("vector", J::U(v as u64)), ("profile", J::s(profile_name())), ("pushed", J::obj(vec![("rip", J::hex(p.resume_rip)), ("cs", J::hex(cs as u64)), ("rflags", J::hex(flags)), ("rsp", J::hex(frame_rsp)), ("ss", J::hex(ss as u64)), ("error_code", if has_error_code(v) { J::hex(err) } else { J::Null })])), ("observed", J::s(format!("{:x?}", o))), ("after", J::obj(vec![("path", J::U(p.out_path)), ("rsp", J::hex(p.out_rsp)), ("rflags", J::hex(p.out_flags))]))]);
@@ -368,7 +373,10 @@ fn iretq_case(rep: &mut Report, r: &mut Rng, scratch: &Stack, resume: &Stack, cs
         }
     }
     let mut p = Params { handler: do_iretq as usize as u64, err: wrapper as u64, flags, frame_rsp, scratch_top: scratch.top(), cs: cs as u64, ss: ss as u64, mode: 1, ..Default::default() };
+    // iretq on a frame value built here must land at the resume label: a fault instead (garbage popped by iretq) is reported
+    crate::util::fault_means_if("C13", "InterruptStackFrameValue::iretq|fault-instead-of-transfer-to-the-frame".into(), J::obj(vec![("profile", J::s(profile_name())), ("frame_rsp", J::hex(frame_rsp)), ("frame_flags", J::hex(flags)), ("through_wrapper_type", J::Bool(wrapper))]), |_| true);
     unsafe { irqsim::deliver(&mut p as *mut Params) };
+    crate::util::fault_means_nothing();
     const KEEP: u64 = ARITH | 0x400 | (1 << 21) | NT_AC;
     if p.out_path != 1 || p.out_rsp != frame_rsp || p.out_flags & KEEP != flags & KEEP {
         rep.violation("InterruptStackFrameValue::iretq|landed-with-other-rsp-or-flags", J::obj(vec![("profile", J::s(profile_name())), ("frame_rsp", J::hex(frame_rsp)), ("frame_flags", J::hex(flags)), ("rsp", J::hex(p.out_rsp)), ("rflags", J::hex(p.out_flags)), ("path", J::U(p.out_path))]));
@@ -377,6 +385,7 @@ fn iretq_case(rep: &mut Report, r: &mut Rng, scratch: &Stack, resume: &Stack, cs
 }
 
 pub fn run(a: &Args, rep: &mut Report) {
+    crate::trapemu::install();
     let mut r = Rng::derive(a.seed, "c13", a.shard);
     let (cs, ss) = irqsim::own_cs_ss();
     // learn the stub addresses from a full installation into an empty table (raw bytes)
